@@ -3,19 +3,23 @@
    procedure (C04, structural part in AuthzProofs.v) with the least-model
    theorem (C05, DatalogProofs.v).
 
-   The fragment.  Set-free: base facts and rule heads carry no set constant
-   (see DatalogProofs.v for why).  Error-free: for the *queries* of checks and
-   policies, every candidate tuple over the world the query is evaluated on
-   gives expressions that evaluate without error and a head that can be
-   instantiated ([rule_ef]); for the *rules*, the hypothesis is simply that the
-   runs return no error ([runs_ok]) — [error_free_no_rule_error] shows that the
-   declarative form of error-freeness leaves only the two limit errors.
+   Worlds are compared up to Predicate.Equal ([equivlistA fact_eqv],
+   [PermutationA fact_eqv]): a world keeps the first representative of each
+   class of Equal facts, so two presentations need not give literally the same
+   facts.  There is no hypothesis on set constants or set operators: every step
+   of the evaluation respects Equal (DatalogProofs.v).  Error-free: for the
+   *queries* of checks and policies, every candidate tuple over the world the
+   query is evaluated on gives expressions that evaluate without error and a
+   head that can be instantiated ([rule_ef]); for the *rules*, the hypothesis
+   is simply that the runs return no error ([runs_ok]) —
+   [error_free_no_rule_error] shows that the declarative form of error-freeness
+   leaves only the two limit errors.
 
    What needs which hypothesis:
-   - C12_repeat, C12_duplicate (equalities), C12_alpha: no error-freeness at all;
-   - C12_permutation: set-free, NoDup authorizer facts, runs without error on
-     both sides, queries error-free on one side. *)
-From Coq Require Import Arith PeanoNat Permutation.
+   - C12_repeat, C12_duplicate (equalities), C12_alpha: nothing at all;
+   - C12_permutation: no two Equal authorizer facts, runs without error on both
+     sides, queries error-free on one side. *)
+From Coq Require Import Arith PeanoNat Permutation SetoidList SetoidPermutation.
 From BV Require Import Base Term Expr Datalog Authz DatalogProofs AuthzProofs.
 
 Local Open Scope nat_scope.
@@ -49,25 +53,33 @@ Lemma NoDup_seteq_Permutation {A} (l l' : list A) :
   NoDup l -> NoDup l' -> seteq l l' -> Permutation l l'.
 Proof. intros H1 H2 H. apply NoDup_Permutation; assumption. Qed.
 
-Lemma setfree_facts_incl fs fs' :
-  (forall f, In f fs' -> In f fs) -> setfree_facts fs -> setfree_facts fs'.
+(* facts as sets up to Predicate.Equal *)
+Lemma seteq_equivlist (l l' : list pred) : seteq l l' -> equivlistA fact_eqv l l'.
 Proof.
-  unfold setfree_facts. rewrite !Forall_forall. intros Hi H f Hf. apply H. apply Hi. exact Hf.
+  intros H x. rewrite !InA_alt. split; intros [y [Hxy Hy]]; exists y; (split; [exact Hxy|]);
+    apply H; exact Hy.
 Qed.
 
-Lemma setfree_rules_incl rs rs' :
-  (forall r, In r rs' -> In r rs) -> setfree_rules rs -> setfree_rules rs'.
+Lemma Permutation_equivlist (l l' : list pred) : Permutation l l' -> equivlistA fact_eqv l l'.
+Proof. intro H. apply seteq_equivlist. apply Permutation_seteq. exact H. Qed.
+
+Lemma equivlist_refl (l : list pred) : equivlistA fact_eqv l l.
+Proof. intro x. reflexivity. Qed.
+
+Lemma equivlist_sym (l l' : list pred) : equivlistA fact_eqv l l' -> equivlistA fact_eqv l' l.
+Proof. intros H x. symmetry. apply H. Qed.
+
+Lemma equivlist_app (l1 l1' l2 l2' : list pred) :
+  equivlistA fact_eqv l1 l1' -> equivlistA fact_eqv l2 l2' ->
+  equivlistA fact_eqv (l1 ++ l2) (l1' ++ l2').
+Proof. intros H1 H2 x. rewrite !InA_app_iff, (H1 x), (H2 x). reflexivity. Qed.
+
+Lemma NoDupA_perm (l l' : list pred) :
+  Permutation l l' -> NoDupA fact_eqv l -> NoDupA fact_eqv l'.
 Proof.
-  unfold setfree_rules. rewrite !Forall_forall. intros Hi H r Hr. apply H. apply Hi. exact Hr.
+  intros P. apply PermutationA_preserves_NoDupA; [exact fact_eqv_Equivalence|].
+  apply Permutation_PermutationA; [exact fact_eqv_Equivalence | exact P].
 Qed.
-
-Lemma setfree_facts_app fs fs' :
-  setfree_facts fs -> setfree_facts fs' -> setfree_facts (fs ++ fs').
-Proof. unfold setfree_facts. intros H1 H2. apply Forall_app. split; assumption. Qed.
-
-Lemma setfree_rules_app rs rs' :
-  setfree_rules rs -> setfree_rules rs' -> setfree_rules (rs ++ rs').
-Proof. unfold setfree_rules. intros H1 H2. apply Forall_app. split; assumption. Qed.
 
 Lemma filter_length_perm {A} (p : A -> bool) (l l' : list A) :
   Permutation l l' -> length (filter p l) = length (filter p l').
@@ -92,18 +104,19 @@ Qed.
 Lemma insert_fact_noop fs f : fact_in f fs = true -> insert_fact fs f = fs.
 Proof. intro H. unfold insert_fact. rewrite H. reflexivity. Qed.
 
-(* no set-free hypothesis: [pred_eqb] is reflexive *)
+(* [pred_eqb] is reflexive *)
 Lemma insert_present fs f : In f fs -> insert_fact fs f = fs.
 Proof. intro H. apply insert_fact_noop. apply In_fact_in. exact H. Qed.
 
 Lemma insert_fact_idem fs f : insert_fact (insert_fact fs f) f = insert_fact fs f.
 Proof. apply insert_fact_noop. apply insert_fact_self. Qed.
 
+(* loading facts that all have an Equal fact in the world changes nothing *)
 Lemma fold_insert_noop l : forall fs,
-  (forall f, In f l -> In f fs) -> fold_left insert_fact l fs = fs.
+  (forall f, In f l -> fact_in f fs = true) -> fold_left insert_fact l fs = fs.
 Proof.
   induction l as [|g l IH]; intros fs H; cbn [fold_left]; [reflexivity|].
-  rewrite (insert_present fs g) by (apply H; left; reflexivity).
+  rewrite (insert_fact_noop fs g) by (apply H; left; reflexivity).
   apply IH. intros f Hf. apply H. right. exact Hf.
 Qed.
 
@@ -114,9 +127,8 @@ Proof. apply fold_left_app. Qed.
 Lemma fold_insert_NoDup l fs : NoDup fs -> NoDup (fold_left insert_fact l fs).
 Proof. exact (insert_all_NoDup l fs). Qed.
 
-Lemma fold_insert_setfree l fs :
-  setfree_facts fs -> setfree_facts l -> setfree_facts (fold_left insert_fact l fs).
-Proof. exact (insert_all_setfree fs l). Qed.
+Lemma fold_insert_NoDupA l fs : NoDupA fact_eqv fs -> NoDupA fact_eqv (fold_left insert_fact l fs).
+Proof. exact (insert_all_NoDupA l fs). Qed.
 
 Lemma fold_insert_fact_in l : forall fs f,
   In f l -> fact_in f (fold_left insert_fact l fs) = true.
@@ -128,34 +140,21 @@ Proof.
   - apply IH. exact Hf.
 Qed.
 
-Lemma fold_insert_In l fs f :
-  setfree_facts fs -> setfree_facts l ->
-  (In f (fold_left insert_fact l fs) <-> In f fs \/ In f l).
-Proof.
-  intros Hfs Hl. split.
-  - intro H. apply (insert_all_in_inv l fs f). exact H.
-  - intros [H|H].
-    + apply insert_all_incl. exact H.
-    + apply fact_in_In; [apply fold_insert_setfree; assumption|].
-      apply fold_insert_fact_in. exact H.
-Qed.
+(* the loaded world, up to Equal: the old facts and the new ones *)
+Lemma fold_insert_InA l fs f :
+  InA fact_eqv f (fold_left insert_fact l fs) <-> InA fact_eqv f fs \/ InA fact_eqv f l.
+Proof. exact (insert_all_InA l fs f). Qed.
 
-(* the base world of a run is determined, up to order, by the *sets* of facts *)
-Lemma fold_insert_seteq_perm l l' fs fs' :
-  setfree_facts fs -> setfree_facts l -> NoDup fs -> NoDup fs' ->
-  seteq (fs ++ l) (fs' ++ l') ->
-  Permutation (fold_left insert_fact l fs) (fold_left insert_fact l' fs').
+(* syntactically, nothing else gets in *)
+Lemma fold_insert_In_inv l fs f : In f (fold_left insert_fact l fs) -> In f fs \/ In f l.
+Proof. exact (insert_all_in_inv l fs f). Qed.
+
+(* the base world of a run is determined, up to Equal, by the *sets* of facts *)
+Lemma fold_insert_equivlist l l' fs fs' :
+  equivlistA fact_eqv (fs ++ l) (fs' ++ l') ->
+  equivlistA fact_eqv (fold_left insert_fact l fs) (fold_left insert_fact l' fs').
 Proof.
-  intros Hfs Hl Hn Hn' He.
-  assert (Hfs' : setfree_facts fs').
-  { eapply setfree_facts_incl; [|exact (setfree_facts_app _ _ Hfs Hl)].
-    intros f Hf. apply He. apply in_or_app. left. exact Hf. }
-  assert (Hl' : setfree_facts l').
-  { eapply setfree_facts_incl; [|exact (setfree_facts_app _ _ Hfs Hl)].
-    intros f Hf. apply He. apply in_or_app. right. exact Hf. }
-  apply NoDup_seteq_Permutation; [apply fold_insert_NoDup; exact Hn | apply fold_insert_NoDup; exact Hn'|].
-  intro f. rewrite (fold_insert_In l fs f Hfs Hl), (fold_insert_In l' fs' f Hfs' Hl').
-  rewrite <- !in_app_iff. apply He.
+  intros He f. rewrite !fold_insert_InA, <- !InA_app_iff. apply He.
 Qed.
 
 (** C12 (duplicates), list level: a second occurrence of a fact in the list
@@ -170,7 +169,19 @@ Proof.
   intros x Hx. apply insert_all_incl. exact Hx.
 Qed.
 
-Lemma insert_all_noop nf fs : (forall f, In f nf -> In f fs) -> insert_all fs nf = fs.
+(* likewise for a second fact that is merely Equal to an earlier one *)
+Theorem fold_insert_dup_eqv l1 l2 l3 f f' fs :
+  fact_eqv f f' ->
+  fold_left insert_fact (l1 ++ f :: l2 ++ f' :: l3) fs =
+  fold_left insert_fact (l1 ++ f :: l2 ++ l3) fs.
+Proof.
+  intro He. rewrite !fold_insert_app. cbn [fold_left]. rewrite !fold_insert_app. cbn [fold_left].
+  f_equal. apply insert_fact_noop. rewrite <- (fact_in_eqv f f' _ He).
+  eapply fact_in_mono; [|apply insert_fact_self].
+  intros x Hx. apply insert_all_incl. exact Hx.
+Qed.
+
+Lemma insert_all_noop nf fs : (forall f, In f nf -> fact_in f fs = true) -> insert_all fs nf = fs.
 Proof. exact (fold_insert_noop nf fs). Qed.
 
 Section Order.
@@ -187,23 +198,19 @@ Proof.
     first [apply Hr; exact Hx | apply Hf; exact Hx].
 Qed.
 
-(* [run_perm] with "same elements" instead of "permutation": duplicates in the
-   rule list do not matter either *)
+(* [run_perm] with "same facts up to Equal" instead of "permutation":
+   duplicates in the rule list do not matter either *)
 Theorem run_seteq lim lim' rules rules' facts facts' x y :
-  setfree_facts facts -> setfree_rules rules -> NoDup facts -> NoDup facts' ->
-  seteq facts facts' -> seteq rules rules' ->
+  NoDupA fact_eqv facts -> NoDupA fact_eqv facts' ->
+  equivlistA fact_eqv facts facts' -> seteq rules rules' ->
   run rx lim rules facts = (x, None) -> run rx lim' rules' facts' = (y, None) ->
-  Permutation x y.
+  PermutationA fact_eqv x y.
 Proof.
-  intros Hsf Hsr Hn Hn' Hf Hr Hx Hy.
-  assert (Hsf' : setfree_facts facts').
-  { eapply setfree_facts_incl; [|exact Hsf]. intros f H. apply Hf. exact H. }
-  assert (Hsr' : setfree_rules rules').
-  { eapply setfree_rules_incl; [|exact Hsr]. intros r H. apply Hr. exact H. }
-  destruct (C05_least_model rx _ _ _ _ Hn Hsf Hsr Hx) as [Hmx Hnx].
-  destruct (C05_least_model rx _ _ _ _ Hn' Hsf' Hsr' Hy) as [Hmy Hny].
-  apply NoDup_seteq_Permutation; [exact Hnx | exact Hny|].
-  intro f. rewrite (Hmx f), (Hmy f). apply Derivable_seteq; assumption.
+  intros Hn Hn' He Hrr Hx Hy.
+  apply NoDupA_equivlistA_PermutationA; [exact fact_eqv_Equivalence | | |].
+  - exact (run_nodupA rx _ _ _ _ _ Hn Hx).
+  - exact (run_nodupA rx _ _ _ _ _ Hn' Hy).
+  - exact (run_equivlist rx lim lim' rules rules' facts facts' x y He Hrr Hx Hy).
 Qed.
 
 (* ------------------------------------------------------------------ *)
@@ -257,13 +264,29 @@ Proof.
   destruct Hcase as [[He _]|[He [Hh _]]]; [congruence | exact (Hi He Hh)].
 Qed.
 
-(* in the set-free fragment the declarative and the computed formulation agree *)
+(* the declarative and the computed formulation agree *)
+Lemma rule_ef_on_sim (M M' : pred -> Prop) q :
+  wsim M' M -> rule_ef_on M q -> rule_ef_on M' q.
+Proof.
+  intros Hs H c' b' Hc' Hm' Hb'.
+  destruct (tuple_sim M' M c' Hs Hc') as [c [Hc Hcc]].
+  pose proof (matches_rel _ _ _ Hcc Hm') as Hm.
+  assert (H0 : brel [] []) by constructor.
+  pose proof (bind_all_rel (r_body q) c' c [] [] Hcc H0) as Hbb. rewrite Hb' in Hbb.
+  destruct (bind_all (r_body q) c []) as [b|] eqn:Hb; cbn [orel] in Hbb; [|contradiction].
+  destruct (H c b Hc Hm Hb) as [Hv Hi].
+  rewrite (eval_exprs_rel rx b' b (r_exprs q) Hbb). split; [exact Hv|].
+  intros He Hnone. apply (Hi He).
+  pose proof (inst_head_rel (r_head q) b' b Hbb) as Hh. rewrite Hnone in Hh.
+  destruct (inst_head (r_head q) b); [contradiction | reflexivity].
+Qed.
+
 Lemma error_free_of_run lim rules facts fs qs :
-  setfree_facts facts -> setfree_rules rules -> run rx lim rules facts = (fs, None) ->
+  run rx lim rules facts = (fs, None) ->
   (forall q, In q qs -> rule_ef q fs) -> error_free rules facts qs.
 Proof.
-  intros Hsf Hsr Hrun H q Hq. eapply rule_ef_on_incl; [|apply H; exact Hq].
-  intros g Hg. eapply run_complete; eassumption.
+  intros Hrun H q Hq. eapply rule_ef_on_sim; [|apply H; exact Hq].
+  exact (run_complete_rel rx _ _ _ _ Hrun).
 Qed.
 
 Lemma rule_ef_no_error r fs acc : rule_ef r fs -> snd (apply_rule rx r fs acc) = None.
@@ -356,6 +379,55 @@ Theorem check_holds_perm fs fs' c c' :
   check_holds rx fs c = check_holds rx fs' c'.
 Proof. intros Hf Hc. apply check_holds_seteq; apply Permutation_seteq; assumption. Qed.
 
+(** Up to Equal.  Two worlds with the same facts up to Predicate.Equal: every
+    fact of one has an Equal fact in the other. *)
+Definition weqv (fs fs' : list pred) : Prop :=
+  wsim (fun g => In g fs) (fun g => In g fs') /\ wsim (fun g => In g fs') (fun g => In g fs).
+
+Lemma weqv_sym fs fs' : weqv fs fs' -> weqv fs' fs.
+Proof. intros [H1 H2]. split; assumption. Qed.
+
+Lemma weqv_of_equivlist fs fs' : equivlistA fact_eqv fs fs' -> weqv fs fs'.
+Proof.
+  intros He. split; apply wsim_of_InA; intros f Hin; apply He; apply In_InA_fact; exact Hin.
+Qed.
+
+Lemma sat_on_sim (M M' : pred -> Prop) q : wsim M M' -> sat_on M q -> sat_on M' q.
+Proof.
+  intros Hs [c [b [Ha [Hm [Hb He]]]]].
+  destruct (tuple_sim M M' c Hs Ha) as [c' [Hc' Hcc]].
+  assert (H0 : brel [] []) by constructor.
+  pose proof (bind_all_rel (r_body q) c c' [] [] Hcc H0) as Hbb. rewrite Hb in Hbb.
+  destruct (bind_all (r_body q) c' []) as [b'|] eqn:Hb'; cbn [orel] in Hbb; [|contradiction].
+  exists c', b'. split; [exact Hc'|]. split; [exact (matches_rel _ _ _ Hcc Hm)|].
+  split; [exact Hb'|]. rewrite <- (eval_exprs_rel rx b b' (r_exprs q) Hbb). exact He.
+Qed.
+
+Lemma rule_ef_eqv q fs fs' : weqv fs fs' -> rule_ef q fs -> rule_ef q fs'.
+Proof. intros [_ H]. apply rule_ef_on_sim; assumption. Qed.
+
+Theorem query_nonempty_eqv q fs fs' :
+  equivlistA fact_eqv fs fs' -> rule_ef q fs ->
+  (query_rule rx q fs <> [] <-> query_rule rx q fs' <> []).
+Proof.
+  intros He Hef. apply weqv_of_equivlist in He.
+  rewrite (query_nonempty_iff q fs Hef), (query_nonempty_iff q fs' (rule_ef_eqv _ _ _ He Hef)).
+  destruct He as [H1 H2]. split; apply sat_on_sim; assumption.
+Qed.
+
+Theorem check_holds_eqv fs fs' c c' :
+  equivlistA fact_eqv fs fs' -> seteq c c' -> check_ef c fs ->
+  check_holds rx fs c = check_holds rx fs' c'.
+Proof.
+  intros Hf Hc Hef. apply Bool.eq_true_iff_eq.
+  rewrite (C04_or_is_disjunction rx fs c), (C04_or_is_disjunction rx fs' c').
+  split; intros [q [Hin Hne]]; exists q.
+  - split; [apply Hc; exact Hin|].
+    apply (query_nonempty_eqv q fs fs' Hf); [apply Hef; exact Hin | exact Hne].
+  - apply Hc in Hin. split; [exact Hin|].
+    apply (query_nonempty_eqv q fs fs' Hf); [apply Hef; exact Hin | exact Hne].
+Qed.
+
 (* ------------------------------------------------------------------ *)
 (** * 2. Lists of checks *)
 
@@ -417,6 +489,20 @@ Proof.
   - intros o i o' i'. apply failed_checks_count_seteq; assumption.
 Qed.
 
+Theorem failed_checks_count_eqv fs fs' cs cs' o i o' i' :
+  equivlistA fact_eqv fs fs' -> checks_perm cs cs' -> checks_ef cs fs ->
+  length (failed_checks rx o fs cs i) = length (failed_checks rx o' fs' cs' i').
+Proof.
+  intros Hf [mid [Hp Hm]] Hef. rewrite !failed_checks_length.
+  rewrite (filter_length_perm _ _ _ Hp). apply filter_length_Forall2.
+  assert (Hefm : forall c, In c mid -> check_ef c fs).
+  { intros c Hc. apply Hef. eapply Permutation_in; [apply Permutation_sym; exact Hp | exact Hc]. }
+  clear Hp Hef. induction Hm as [|c c' mid cs' Hc Hm IH]; constructor.
+  - f_equal. apply check_holds_eqv; [exact Hf | apply Permutation_seteq; exact Hc|].
+    apply Hefm. left. reflexivity.
+  - apply IH. intros c0 Hc0. apply Hefm. right. exact Hc0.
+Qed.
+
 (* ------------------------------------------------------------------ *)
 (** * 3. Policies: the list order is significant and is kept *)
 
@@ -448,6 +534,17 @@ Theorem policy_result_perm_facts fs fs' ps ps' :
   Permutation fs fs' -> Forall2 policy_perm ps ps' -> policies_ef ps fs ->
   policy_result rx fs ps = policy_result rx fs' ps'.
 Proof. intro H. apply policy_result_seteq. apply Permutation_seteq. exact H. Qed.
+
+Theorem policy_result_eqv fs fs' ps ps' :
+  equivlistA fact_eqv fs fs' -> Forall2 policy_perm ps ps' -> policies_ef ps fs ->
+  policy_result rx fs ps = policy_result rx fs' ps'.
+Proof.
+  intros Hf Hp. induction Hp as [|p p' ps ps' [Hk Hq] Hp IH]; intros Hef; cbn [policy_result];
+    [reflexivity|].
+  rewrite <- (check_holds_eqv fs fs' (pol_queries p) (pol_queries p') Hf
+                (Permutation_seteq _ _ Hq) (Hef p (or_introl eq_refl))).
+  rewrite Hk, IH; [reflexivity|]. intros p0 Hp0. apply Hef. right. exact Hp0.
+Qed.
 
 (* the policy order cannot be permuted: first match wins *)
 
@@ -482,12 +579,6 @@ Record astate_perm (a a' : astate) : Prop := {
 
 Lemma block_perm_refl b : block_perm b b.
 Proof. split; [apply Permutation_refl | apply Permutation_refl | apply checks_perm_refl]. Qed.
-
-Definition block_setfree (b : block) : Prop :=
-  setfree_facts (b_facts b) /\ setfree_rules (b_rules b).
-
-Lemma block_setfree_empty : block_setfree empty_block.
-Proof. split; constructor. Qed.
 
 (* every Datalog run inside [authorize rx tok a] ends without error *)
 Definition runs_ok (tok : list block) (a : astate) : Prop :=
@@ -537,26 +628,21 @@ Proof.
   cbn [verdict_of verdict_class length]. rewrite Hl. reflexivity.
 Qed.
 
-(* one block on top of permuted authority-level worlds *)
-Lemma block_world_perm lim lim' fs fs' b b' w w' :
-  Permutation fs fs' -> NoDup fs -> setfree_facts fs ->
-  block_perm b b' -> block_setfree b ->
+(* one block on top of authority-level worlds that are the same up to Equal *)
+Lemma block_world_eqv lim lim' fs fs' b b' w w' :
+  equivlistA fact_eqv fs fs' -> block_perm b b' ->
   block_world rx lim fs b = (w, None) -> block_world rx lim' fs' b' = (w', None) ->
-  Permutation w w'.
+  equivlistA fact_eqv w w'.
 Proof.
-  intros Hp Hn Hsf [Hbf Hbr _] [Hsbf Hsbr] Hw Hw'. unfold block_world in *.
-  assert (Hn' : NoDup fs') by (eapply Permutation_NoDup; eassumption).
-  eapply (run_perm rx lim lim' (b_rules b) (b_rules b')); [ | exact Hsbr | | | exact Hbr | exact Hw | exact Hw'].
-  - apply fold_insert_setfree; assumption.
-  - apply fold_insert_NoDup; exact Hn.
-  - apply fold_insert_seteq_perm; try assumption.
-    apply seteq_app; apply Permutation_seteq; assumption.
+  intros He [Hbf Hbr _] Hw Hw'. unfold block_world in *.
+  eapply (run_equivlist rx lim lim' (b_rules b) (b_rules b')); [ | | exact Hw | exact Hw'].
+  - apply fold_insert_equivlist. apply equivlist_app; [exact He | apply Permutation_equivlist; exact Hbf].
+  - apply Permutation_seteq. exact Hbr.
 Qed.
 
-Lemma blocks_phase_perm lim lim' fs fs' bs bs' :
-  Permutation fs fs' -> NoDup fs -> setfree_facts fs ->
+Lemma blocks_phase_eqv lim lim' fs fs' bs bs' :
+  equivlistA fact_eqv fs fs' ->
   Forall2 block_perm bs bs' ->
-  Forall block_setfree bs ->
   Forall (fun b => snd (block_world rx lim fs b) = None) bs ->
   Forall (fun b => snd (block_world rx lim' fs' b) = None) bs' ->
   Forall (fun b => checks_ef (b_checks b) (fst (block_world rx lim fs b))) bs ->
@@ -564,7 +650,7 @@ Lemma blocks_phase_perm lim lim' fs fs' bs bs' :
     blocks_phase rx lim fs bs i = Ok l /\ blocks_phase rx lim' fs' bs' i' = Ok l' /\
     length l = length l'.
 Proof.
-  intros Hp Hn Hsf HF. induction HF as [|b b' bs bs' Hb HF IH]; intros Hs Hok Hok' Hef i i'.
+  intros He HF. induction HF as [|b b' bs bs' Hb HF IH]; intros Hok Hok' Hef i i'.
   - exists [], []. repeat split; reflexivity.
   - rewrite !blocks_phase_cons. unfold block_outcome.
     pose proof (Forall_inv Hok) as Hok1. pose proof (Forall_inv Hok') as Hok1'.
@@ -572,75 +658,85 @@ Proof.
     destruct (block_world rx lim fs b) as [w [e|]] eqn:Hw; [discriminate Hok1|].
     destruct (block_world rx lim' fs' b') as [w' [e|]] eqn:Hw'; [discriminate Hok1'|].
     cbn [fst] in Hef1.
-    pose proof (block_world_perm lim lim' fs fs' b b' w w' Hp Hn Hsf Hb (Forall_inv Hs) Hw Hw') as Hpw.
-    destruct (IH (Forall_inv_tail Hs) (Forall_inv_tail Hok) (Forall_inv_tail Hok')
+    pose proof (block_world_eqv lim lim' fs fs' b b' w w' He Hb Hw Hw') as Hww.
+    destruct (IH (Forall_inv_tail Hok) (Forall_inv_tail Hok')
                  (Forall_inv_tail Hef) (i + 1)%N (i' + 1)%N) as [l [l' [Hl [Hl' Hlen]]]].
     rewrite Hl, Hl'. cbn [bind]. eexists. eexists. split; [reflexivity|]. split; [reflexivity|].
     rewrite !app_length, Hlen. f_equal.
-    apply failed_checks_count_seteq; [apply Permutation_seteq; exact Hpw | exact (bp_checks _ _ Hb) | exact Hef1].
+    apply failed_checks_count_eqv; [exact Hww | exact (bp_checks _ _ Hb) | exact Hef1].
 Qed.
 
 (* the authority-level worlds *)
-Lemma auth_world_perm auth auth' a a' fs fs' :
+Lemma auth_world_eqv auth auth' a a' fs fs' :
   block_perm auth auth' -> astate_perm a a' ->
-  setfree_facts (a_facts a) -> setfree_rules (a_rules a) -> block_setfree auth ->
-  NoDup (a_facts a) ->
   auth_world rx auth a = (fs, None) -> auth_world rx auth' a' = (fs', None) ->
-  Permutation fs fs' /\ NoDup fs /\ setfree_facts fs.
+  equivlistA fact_eqv fs fs' /\
+  (NoDupA fact_eqv (a_facts a) -> PermutationA fact_eqv fs fs').
 Proof.
-  intros [Hbf Hbr _] [Haf Har _ _ _] Hsf Hsr [Hsbf Hsbr] Hn Hw Hw'. unfold auth_world in *.
-  assert (Hn' : NoDup (a_facts a')) by (eapply Permutation_NoDup; eassumption).
-  assert (Hsf0 : setfree_facts (fold_left insert_fact (b_facts auth) (a_facts a)))
-    by (apply fold_insert_setfree; assumption).
-  assert (Hsr0 : setfree_rules (a_rules a ++ b_rules auth)) by (apply setfree_rules_app; assumption).
-  assert (Hn0 : NoDup (fold_left insert_fact (b_facts auth) (a_facts a)))
-    by (apply fold_insert_NoDup; exact Hn).
-  split; [|split].
-  - eapply (run_perm rx _ _ _ _ _ _ _ _ Hsf0 Hsr0 Hn0); [ | | exact Hw | exact Hw'].
-    + apply fold_insert_seteq_perm; try assumption.
-      apply seteq_app; apply Permutation_seteq; assumption.
-    + apply Permutation_app; assumption.
-  - eapply run_nodup_gen; eassumption.
-  - eapply run_setfree; eassumption.
+  intros [Hbf Hbr _] [Haf Har _ _ _] Hw Hw'. unfold auth_world in *.
+  assert (Heq : equivlistA fact_eqv fs fs').
+  { eapply (run_equivlist rx _ _ (a_rules a ++ b_rules auth) (a_rules a' ++ b_rules auth'));
+      [ | | exact Hw | exact Hw'].
+    - apply fold_insert_equivlist. apply equivlist_app; apply Permutation_equivlist; assumption.
+    - apply Permutation_seteq. apply Permutation_app; assumption. }
+  split; [exact Heq|].
+  intro Hn. apply NoDupA_equivlistA_PermutationA; [exact fact_eqv_Equivalence | | | exact Heq].
+  - eapply run_nodupA; [|exact Hw]. apply fold_insert_NoDupA. exact Hn.
+  - eapply run_nodupA; [|exact Hw']. apply fold_insert_NoDupA. eapply NoDupA_perm; eassumption.
 Qed.
 
 Theorem C12_permutation_cons auth auth' bs bs' a a' :
   block_perm auth auth' -> Forall2 block_perm bs bs' -> astate_perm a a' ->
-  setfree_facts (a_facts a) -> setfree_rules (a_rules a) ->
-  block_setfree auth -> Forall block_setfree bs ->
-  NoDup (a_facts a) ->
+  NoDupA fact_eqv (a_facts a) ->
   runs_ok (auth :: bs) a -> runs_ok (auth' :: bs') a' ->
   queries_ef (auth :: bs) a ->
   verdict_class (snd (authorize rx (auth :: bs) a)) =
   verdict_class (snd (authorize rx (auth' :: bs') a')) /\
-  Permutation (a_facts (fst (authorize rx (auth :: bs) a)))
-              (a_facts (fst (authorize rx (auth' :: bs') a'))).
+  PermutationA fact_eqv (a_facts (fst (authorize rx (auth :: bs) a)))
+                        (a_facts (fst (authorize rx (auth' :: bs') a'))).
 Proof.
-  intros Hauth Hbs Ha Hsf Hsr Hsa Hsbs Hn [Hok Hoks] [Hok' Hoks'] [Hef1 [Hef2 [Hef3 Hef4]]].
+  intros Hauth Hbs Ha Hn [Hok Hoks] [Hok' Hoks'] [Hef1 [Hef2 [Hef3 Hef4]]].
   cbn [hd tl] in *. rewrite !authorize_cons.
   destruct (auth_world rx auth a) as [fs [e|]] eqn:Hw; [discriminate Hok|].
   destruct (auth_world rx auth' a') as [fs' [e|]] eqn:Hw'; [discriminate Hok'|].
   cbn [fst snd] in *.
-  destruct (auth_world_perm auth auth' a a' fs fs' Hauth Ha Hsf Hsr Hsa Hn Hw Hw')
-    as [Hp [Hnf Hsff]].
-  pose proof (Permutation_seteq _ _ Hp) as Hse.
+  destruct (auth_world_eqv auth auth' a a' fs fs' Hauth Ha Hw Hw') as [Heq Hp].
   rewrite <- (ap_limits _ _ Ha) in *.
-  destruct (blocks_phase_perm (a_limits a) (a_limits a) fs fs' bs bs' Hp Hnf Hsff Hbs Hsbs
+  destruct (blocks_phase_eqv (a_limits a) (a_limits a) fs fs' bs bs' Heq Hbs
               Hoks Hoks' Hef4 1%N 1%N) as [l [l' [Hl [Hl' Hlen]]]].
-  rewrite Hl, Hl'. split; [|exact Hp].
+  rewrite Hl, Hl'. split; [|exact (Hp Hn)].
   apply verdict_class_verdict_of.
   - rewrite !app_length, Hlen. f_equal; [|f_equal].
-    + apply failed_checks_count_seteq; [exact Hse | exact (ap_checks _ _ Ha) | exact Hef1].
-    + apply failed_checks_count_seteq; [exact Hse | exact (bp_checks _ _ Hauth) | exact Hef2].
-  - apply policy_result_seteq; [exact Hse | exact (ap_policies _ _ Ha) | exact Hef3].
+    + apply failed_checks_count_eqv; [exact Heq | exact (ap_checks _ _ Ha) | exact Hef1].
+    + apply failed_checks_count_eqv; [exact Heq | exact (bp_checks _ _ Hauth) | exact Hef2].
+  - apply policy_result_eqv; [exact Heq | exact (ap_policies _ _ Ha) | exact Hef3].
 Qed.
 
 (** 4.  C12, permutations.  [tok] and [tok'] have the same number of blocks,
     block by block permuted; the authorizer likewise; the policy list keeps
-    its order. *)
+    its order.  Same verdict class; the same world up to Predicate.Equal.  No
+    hypothesis on set constants or set operators. *)
 Theorem C12_permutation tok tok' a a' :
   Forall2 block_perm tok tok' -> astate_perm a a' ->
-  setfree_facts (a_facts a) -> setfree_rules (a_rules a) -> Forall block_setfree tok ->
+  NoDupA fact_eqv (a_facts a) ->
+  runs_ok tok a -> runs_ok tok' a' ->
+  queries_ef tok a ->
+  verdict_class (snd (authorize rx tok a)) = verdict_class (snd (authorize rx tok' a')) /\
+  PermutationA fact_eqv (a_facts (fst (authorize rx tok a))) (a_facts (fst (authorize rx tok' a'))).
+Proof.
+  intros Htok Ha Hn Hok Hok' Hef.
+  rewrite (authorize_hd_tl tok a), (authorize_hd_tl tok' a').
+  apply C12_permutation_cons; try assumption.
+  - destruct Htok as [|b b' bs bs' Hb Hbs]; [apply block_perm_refl | exact Hb].
+  - destruct Htok as [|b b' bs bs' Hb Hbs]; [constructor | exact Hbs].
+Qed.
+
+(* the earlier statement, for set-free facts and rule heads: there
+   Predicate.Equal is equality and the conclusion is a plain permutation *)
+Corollary C12_permutation_setfree tok tok' a a' :
+  Forall2 block_perm tok tok' -> astate_perm a a' ->
+  setfree_facts (a_facts a) -> setfree_rules (a_rules a) ->
+  Forall (fun b => setfree_facts (b_facts b) /\ setfree_rules (b_rules b)) tok ->
   NoDup (a_facts a) ->
   runs_ok tok a -> runs_ok tok' a' ->
   queries_ef tok a ->
@@ -648,25 +744,31 @@ Theorem C12_permutation tok tok' a a' :
   Permutation (a_facts (fst (authorize rx tok a))) (a_facts (fst (authorize rx tok' a'))).
 Proof.
   intros Htok Ha Hsf Hsr Hst Hn Hok Hok' Hef.
-  rewrite (authorize_hd_tl tok a), (authorize_hd_tl tok' a').
-  apply C12_permutation_cons; try assumption.
-  - destruct Htok as [|b b' bs bs' Hb Hbs]; [apply block_perm_refl | exact Hb].
-  - destruct Htok as [|b b' bs bs' Hb Hbs]; [constructor | exact Hbs].
-  - destruct Hst as [|b bs Hb Hbs]; [exact block_setfree_empty | exact Hb].
-  - destruct Hst as [|b bs Hb Hbs]; [constructor | exact Hbs].
+  destruct (C12_permutation tok tok' a a' Htok Ha) as [Hv Hp]; try assumption.
+  - apply NoDup_setfree_NoDupA; assumption.
+  - split; [exact Hv|]. apply PermutationA_setfree; [|exact Hp].
+    rewrite (authorize_hd_tl tok a), authorize_cons.
+    destruct Hok as [Hok _].
+    destruct (auth_world rx (hd empty_block tok) a) as [fs [e|]] eqn:Hw; [discriminate Hok|].
+    assert (Hfs : setfree_facts fs).
+    { unfold auth_world in Hw. eapply (run_setfree rx); [| |exact Hw].
+      - apply insert_all_setfree; [exact Hsf|].
+        destruct Hst as [|b bs [Hb _] _]; [constructor | exact Hb].
+      - unfold setfree_rules. apply Forall_app. split; [exact Hsr|].
+        destruct Hst as [|b bs [_ Hb] _]; [constructor | exact Hb]. }
+    destruct (blocks_phase rx (a_limits a) fs (tl tok) 1) as [l|e|s]; exact Hfs.
 Qed.
 
 (* the authority-only case, as a named corollary *)
 Corollary C12_permutation_authority auth auth' a a' :
   block_perm auth auth' -> astate_perm a a' ->
-  setfree_facts (a_facts a) -> setfree_rules (a_rules a) -> block_setfree auth ->
-  NoDup (a_facts a) ->
+  NoDupA fact_eqv (a_facts a) ->
   runs_ok [auth] a -> runs_ok [auth'] a' ->
   queries_ef [auth] a ->
   verdict_class (snd (authorize rx [auth] a)) = verdict_class (snd (authorize rx [auth'] a')) /\
-  Permutation (a_facts (fst (authorize rx [auth] a))) (a_facts (fst (authorize rx [auth'] a'))).
+  PermutationA fact_eqv (a_facts (fst (authorize rx [auth] a))) (a_facts (fst (authorize rx [auth'] a'))).
 Proof.
-  intros Hauth Ha Hsf Hsr Hsa Hn Hok Hok' Hef.
+  intros Hauth Ha Hn Hok Hok' Hef.
   apply C12_permutation_cons; try assumption; constructor.
 Qed.
 
@@ -703,38 +805,37 @@ Proof.
   rewrite fold_insert_dup. reflexivity.
 Qed.
 
-(** an authorizer fact that the authority block also carries (or conversely):
-    the loaded world is the same set, the closed world a permutation.  Stated
-    for arbitrary fact lists with the same union. *)
+(** an authorizer fact that the authority block also carries (or conversely),
+    or a fact Equal to it: the loaded world is the same up to Equal, the closed
+    world a permutation up to Equal.  Stated for arbitrary fact lists with the
+    same union. *)
 Theorem C12_duplicate_world lim lim' rules l l' fs fs' w w' :
-  setfree_facts fs -> setfree_facts l -> setfree_rules rules -> NoDup fs -> NoDup fs' ->
-  seteq (fs ++ l) (fs' ++ l') ->
+  NoDupA fact_eqv fs -> NoDupA fact_eqv fs' ->
+  equivlistA fact_eqv (fs ++ l) (fs' ++ l') ->
   run rx lim rules (fold_left insert_fact l fs) = (w, None) ->
   run rx lim' rules (fold_left insert_fact l' fs') = (w', None) ->
-  Permutation w w'.
+  PermutationA fact_eqv w w'.
 Proof.
-  intros Hfs Hl Hr Hn Hn' He Hw Hw'.
-  eapply (run_perm rx lim lim' rules rules); [ | exact Hr | | | apply Permutation_refl | exact Hw | exact Hw'].
-  - apply fold_insert_setfree; assumption.
-  - apply fold_insert_NoDup; exact Hn.
-  - apply fold_insert_seteq_perm; assumption.
+  intros Hn Hn' He Hw Hw'.
+  eapply (run_seteq lim lim' rules rules); [ | | | apply seteq_refl | exact Hw | exact Hw'].
+  - apply fold_insert_NoDupA; exact Hn.
+  - apply fold_insert_NoDupA; exact Hn'.
+  - apply fold_insert_equivlist; exact He.
 Qed.
 
 Corollary C12_duplicate_authorizer_fact auth a f w w' :
-  setfree_facts (a_facts a) -> setfree_rules (a_rules a) -> block_setfree auth -> NoDup (a_facts a) ->
-  In f (b_facts auth) ->
+  NoDupA fact_eqv (a_facts a) -> InA fact_eqv f (b_facts auth) ->
   auth_world rx auth a = (w, None) -> auth_world rx auth (add_fact a f) = (w', None) ->
-  Permutation w w'.
+  PermutationA fact_eqv w w'.
 Proof.
-  intros Hsf Hsr [Hsbf Hsbr] Hn Hf Hw Hw'. unfold auth_world, add_fact in *.
+  intros Hn Hf Hw Hw'. unfold auth_world, add_fact in *.
   cbn [a_facts a_rules a_limits] in Hw'.
-  eapply C12_duplicate_world; [exact Hsf | exact Hsbf | | exact Hn | | | exact Hw | exact Hw'].
-  - apply setfree_rules_app; assumption.
-  - apply insert_fact_NoDup. exact Hn.
-  - intro x. rewrite !in_app_iff. split.
-    + intros [H|H]; [left; apply insert_fact_incl; exact H | right; exact H].
-    + intros [H|H]; [|right; exact H].
-      apply insert_fact_in_inv in H as [H|H]; [left; exact H | right; subst x; exact Hf].
+  eapply C12_duplicate_world; [exact Hn | | | exact Hw | exact Hw'].
+  - apply insert_fact_NoDupA. exact Hn.
+  - intro x. rewrite !InA_app_iff, insert_fact_InA. split.
+    + intros [H|H]; [left; left; exact H | right; exact H].
+    + intros [[H|H]|H]; [left; exact H | | right; exact H].
+      right. eapply InA_eqA; [exact fact_eqv_Equivalence | symmetry; exact H | exact Hf].
 Qed.
 
 (* ------------------------------------------------------------------ *)
@@ -752,9 +853,9 @@ Proof.
   apply IH. intros r0 Hr0. apply H. right. exact Hr0.
 Qed.
 
-(* a world closed under the rules is left as it is, literally *)
+(* a world closed under the rules (up to Equal) is left as it is, literally *)
 Definition closed_under (rs : list rule) (fs : list pred) : Prop :=
-  forall r c b f, In r rs -> In c (combos (r_body r) fs) -> fires rx r c b f -> In f fs.
+  forall r c b f, In r rs -> In c (combos (r_body r) fs) -> fires rx r c b f -> fact_in f fs = true.
 
 Lemma closed_round rs fs nf e :
   closed_under rs fs -> apply_rules rx rs fs [] = (nf, e) -> insert_all fs nf = fs.
@@ -782,42 +883,38 @@ Qed.
 (** 6.  After an [authorize] whose authority-level run ended without error,
     [authorize] is idempotent: same state, same verdict — including the list
     of failed checks, and including a run error raised by a later block.
-    No error-freeness hypothesis on the queries, no [NoDup]. *)
+    No hypothesis on set constants, no error-freeness hypothesis on the
+    queries, no [NoDup]. *)
 Theorem C12_repeat_state tok a :
-  setfree_facts (a_facts a) -> setfree_rules (a_rules a) -> block_setfree (hd empty_block tok) ->
   snd (auth_world rx (hd empty_block tok) a) = None ->
   authorize rx tok (fst (authorize rx tok a)) = authorize rx tok a.
 Proof.
-  intros Hsf Hsr [Hsbf Hsbr] Hok.
+  intros Hok.
   rewrite (authorize_hd_tl tok a), (authorize_hd_tl tok).
   set (auth := hd empty_block tok) in *. set (bs := tl tok).
   rewrite (authorize_cons rx auth bs a).
   destruct (auth_world rx auth a) as [fs [e|]] eqn:Hw; [discriminate Hok|]. cbn [fst].
   assert (Hw2 : auth_world rx auth (mk_state a fs []) = (fs, None)).
   { unfold auth_world in *. cbn [mk_state a_limits a_rules a_facts app].
-    assert (Hsf0 : setfree_facts (fold_left insert_fact (b_facts auth) (a_facts a)))
-      by (apply fold_insert_setfree; assumption).
-    assert (Hsr0 : setfree_rules (a_rules a ++ b_rules auth)) by (apply setfree_rules_app; assumption).
     rewrite fold_insert_noop.
     - apply run_closed_ok.
       + intros r c b f Hr Hc Hfi.
-        eapply (run_ok_closed rx _ _ _ _ Hsf0 Hsr0 Hw r c b f); [|exact Hc|exact Hfi].
+        eapply (run_ok_closed rx _ _ _ _ Hw r c b f); [|exact Hc|exact Hfi].
         apply in_or_app. right. exact Hr.
       + intros r Hr. eapply (run_ok_no_rule_error rx _ _ _ _ Hw).
         apply in_or_app. right. exact Hr.
       + eapply run_ok_below_max_facts. exact Hw.
       + intro Hz. rewrite (run_max_iterations_zero rx _ _ _ Hz) in Hw. discriminate Hw.
-    - intros f Hf. eapply run_extends; [exact Hw|].
-      apply fold_insert_In; [assumption | assumption | right; exact Hf]. }
+    - intros f Hf. eapply fact_in_mono; [|apply fold_insert_fact_in; exact Hf].
+      intros x Hx. eapply run_extends; [exact Hw | exact Hx]. }
   rewrite authorize_cons, Hw2. reflexivity.
 Qed.
 
 Theorem C12_repeat tok a :
-  setfree_facts (a_facts a) -> setfree_rules (a_rules a) -> block_setfree (hd empty_block tok) ->
   (forall e, snd (authorize rx tok a) <> VRunError e) ->
   snd (authorize rx tok (fst (authorize rx tok a))) = snd (authorize rx tok a).
 Proof.
-  intros Hsf Hsr Hsb Hne. rewrite C12_repeat_state; try assumption; [reflexivity|].
+  intros Hne. rewrite C12_repeat_state; [reflexivity|].
   apply runs_ok_iff in Hne. exact (proj1 Hne).
 Qed.
 
@@ -829,11 +926,10 @@ Fixpoint authorize_times (n : nat) (tok : list block) (a : astate) : astate :=
   end.
 
 Corollary C12_repeat_n tok a n :
-  setfree_facts (a_facts a) -> setfree_rules (a_rules a) -> block_setfree (hd empty_block tok) ->
   snd (auth_world rx (hd empty_block tok) a) = None ->
   authorize rx tok (authorize_times n tok a) = authorize rx tok a.
 Proof.
-  intros Hsf Hsr Hsb Hok. induction n as [|n IH]; [reflexivity|].
+  intros Hok. induction n as [|n IH]; [reflexivity|].
   cbn [authorize_times]. rewrite IH. apply C12_repeat_state; assumption.
 Qed.
 
@@ -841,51 +937,50 @@ Qed.
 (** * 8. C04 composed with C05: the worlds of [authorize] are least models *)
 
 Lemma auth_world_least_model auth a fs :
-  setfree_facts (a_facts a) -> setfree_rules (a_rules a) -> block_setfree auth ->
   auth_world rx auth a = (fs, None) ->
-  (forall f, In f fs <->
-     Derivable rx (a_rules a ++ b_rules auth) (fold_left insert_fact (b_facts auth) (a_facts a)) f)
-  /\ setfree_facts fs /\ (NoDup (a_facts a) -> NoDup fs).
+  (forall f, In f fs ->
+     Derivable rx (a_rules a ++ b_rules auth) (fold_left insert_fact (b_facts auth) (a_facts a)) f) /\
+  (forall f,
+     Derivable rx (a_rules a ++ b_rules auth) (fold_left insert_fact (b_facts auth) (a_facts a)) f ->
+     InA fact_eqv f fs) /\
+  (NoDupA fact_eqv (a_facts a) -> NoDupA fact_eqv fs).
 Proof.
-  intros Hsf Hsr [Hsbf Hsbr] Hw. unfold auth_world in Hw.
-  assert (Hsf0 : setfree_facts (fold_left insert_fact (b_facts auth) (a_facts a)))
-    by (apply fold_insert_setfree; assumption).
-  assert (Hsr0 : setfree_rules (a_rules a ++ b_rules auth)) by (apply setfree_rules_app; assumption).
-  split; [|split].
-  - intro f. split; [eapply run_sound; exact Hw | eapply run_complete; eassumption].
-  - eapply run_setfree; eassumption.
-  - intro Hn. eapply run_nodup_gen; [|exact Hw]. apply fold_insert_NoDup. exact Hn.
+  intros Hw. unfold auth_world in Hw. split; [|split].
+  - eapply run_sound; exact Hw.
+  - eapply run_complete; eassumption.
+  - intro Hn. eapply run_nodupA; [|exact Hw]. apply fold_insert_NoDupA. exact Hn.
 Qed.
 
 Lemma block_world_least_model lim fs b w :
-  setfree_facts fs -> block_setfree b ->
   block_world rx lim fs b = (w, None) ->
-  (forall f, In f w <-> Derivable rx (b_rules b) (fold_left insert_fact (b_facts b) fs) f)
-  /\ setfree_facts w /\ (NoDup fs -> NoDup w).
+  (forall f, In f w -> Derivable rx (b_rules b) (fold_left insert_fact (b_facts b) fs) f) /\
+  (forall f, Derivable rx (b_rules b) (fold_left insert_fact (b_facts b) fs) f -> InA fact_eqv f w) /\
+  (NoDupA fact_eqv fs -> NoDupA fact_eqv w).
 Proof.
-  intros Hsf [Hsbf Hsbr] Hw. unfold block_world in Hw.
-  assert (Hsf0 : setfree_facts (fold_left insert_fact (b_facts b) fs))
-    by (apply fold_insert_setfree; assumption).
-  split; [|split].
-  - intro f. split; [eapply run_sound; exact Hw | eapply run_complete; eassumption].
-  - eapply run_setfree; eassumption.
-  - intro Hn. eapply run_nodup_gen; [|exact Hw]. apply fold_insert_NoDup. exact Hn.
+  intros Hw. unfold block_world in Hw. split; [|split].
+  - eapply run_sound; exact Hw.
+  - eapply run_complete; eassumption.
+  - intro Hn. eapply run_nodupA; [|exact Hw]. apply fold_insert_NoDupA. exact Hn.
 Qed.
 
-(** 8a *)
+(** 8a.  Every fact of a world is derivable; every derivable fact has an Equal
+    fact in the world.  For every program. *)
 Theorem C04_worlds_are_least_models auth a fs :
-  setfree_facts (a_facts a) -> setfree_rules (a_rules a) -> block_setfree auth ->
   auth_world rx auth a = (fs, None) ->
-  (forall f, In f fs <->
-     Derivable rx (a_rules a ++ b_rules auth) (fold_left insert_fact (b_facts auth) (a_facts a)) f)
+  ((forall f, In f fs ->
+      Derivable rx (a_rules a ++ b_rules auth) (fold_left insert_fact (b_facts auth) (a_facts a)) f) /\
+   (forall f,
+      Derivable rx (a_rules a ++ b_rules auth) (fold_left insert_fact (b_facts auth) (a_facts a)) f ->
+      InA fact_eqv f fs))
   /\
-  (forall lim b w, block_setfree b -> block_world rx lim fs b = (w, None) ->
-     forall f, In f w <-> Derivable rx (b_rules b) (fold_left insert_fact (b_facts b) fs) f).
+  (forall lim b w, block_world rx lim fs b = (w, None) ->
+     (forall f, In f w -> Derivable rx (b_rules b) (fold_left insert_fact (b_facts b) fs) f) /\
+     (forall f, Derivable rx (b_rules b) (fold_left insert_fact (b_facts b) fs) f -> InA fact_eqv f w)).
 Proof.
-  intros Hsf Hsr Hsb Hw.
-  destruct (auth_world_least_model auth a fs Hsf Hsr Hsb Hw) as [Hm [Hsfs _]].
-  split; [exact Hm|]. intros lim b w Hb Hbw.
-  exact (proj1 (block_world_least_model lim fs b w Hsfs Hb Hbw)).
+  intros Hw.
+  destruct (auth_world_least_model auth a fs Hw) as [Hs [Hc _]].
+  split; [split; assumption|]. intros lim b w Hbw.
+  destruct (block_world_least_model lim fs b w Hbw) as [Hs' [Hc' _]]. split; assumption.
 Qed.
 
 (* ---- a base given as a predicate, so that the specification below mentions
@@ -952,6 +1047,36 @@ Proof.
     + intros r c b f Hr Hall Hm Hb He Hh. eapply D_rule; eassumption.
 Qed.
 
+(* the simulation lemma of DatalogProofs.v, for a base given as a predicate *)
+Lemma DerivableP_sim rules (B W : pred -> Prop) :
+  wsim B W ->
+  (forall r c b f, In r rules -> Forall W c ->
+     Forall2 (fun g p => pred_match g p = true) c (r_body r) -> fires rx r c b f ->
+     exists g, W g /\ prel f g) ->
+  wsim (DerivableP rules B) W.
+Proof.
+  intros Hbase Hclosed. unfold wsim. apply DerivableP_strong_ind; [exact Hbase|].
+  intros r c b f Hr Hall Hm Hb He Hh.
+  destruct (tuple_sim (fun f => exists g, W g /\ prel f g) W c) as [c' [Hc' Hcc]].
+  - intros x [g [Hg Hxg]]. exists g. split; assumption.
+  - exact Hall.
+  - destruct (fires_sim rx r c c' b f Hcc (conj Hb (conj He Hh))) as [b' [f' [Hfi Hff]]].
+    destruct (Hclosed r c' b' f' Hr Hc' (matches_rel _ _ _ Hcc Hm) Hfi) as [g [Hg Hfg]].
+    exists g. split; [exact Hg | eapply prel_trans; eassumption].
+Qed.
+
+(* a declarative model over a base that covers the loaded facts up to Equal is
+   covered by the least model of the loaded facts *)
+Lemma DerivableP_to_Derivable rules (B : pred -> Prop) facts :
+  wsim B (fun g => In g facts) ->
+  wsim (DerivableP rules B) (Derivable rx rules facts).
+Proof.
+  intros HB. apply DerivableP_sim.
+  - intros f Hf. destruct (HB f Hf) as [g [Hg Hfg]]. exists g. split; [apply D_base; exact Hg | exact Hfg].
+  - intros r c b f Hin Hall Hm [Hb [He Hh]]. exists f. split; [|apply prel_refl].
+    eapply D_rule; eassumption.
+Qed.
+
 (* the two scopes, declaratively *)
 Definition auth_model (auth : block) (a : astate) : pred -> Prop :=
   DerivableP (a_rules a ++ b_rules auth) (fun g => In g (a_facts a) \/ In g (b_facts auth)).
@@ -959,25 +1084,54 @@ Definition auth_model (auth : block) (a : astate) : pred -> Prop :=
 Definition block_model (M0 : pred -> Prop) (b : block) : pred -> Prop :=
   DerivableP (b_rules b) (fun g => M0 g \/ In g (b_facts b)).
 
-Lemma auth_world_model auth a fs :
-  setfree_facts (a_facts a) -> setfree_rules (a_rules a) -> block_setfree auth ->
-  auth_world rx auth a = (fs, None) ->
-  forall f, In f fs <-> auth_model auth a f.
+(* a world [fs] realises a declarative model [M]: its facts are in [M], and
+   every fact of [M] has an Equal fact in [fs] *)
+Definition realises (fs : list pred) (M : pred -> Prop) : Prop :=
+  (forall g, In g fs -> M g) /\ (forall g, M g -> InA fact_eqv g fs).
+
+Lemma realises_wsim fs (M : pred -> Prop) : realises fs M -> wsim M (fun g => In g fs).
 Proof.
-  intros Hsf Hsr Hsb Hw f.
-  rewrite (proj1 (auth_world_least_model auth a fs Hsf Hsr Hsb Hw) f), Derivable_DerivableP.
-  apply DerivableP_ext. intro g. apply fold_insert_In; [exact Hsf | exact (proj1 Hsb)].
+  intros [_ H] f Hf. apply H in Hf. apply InA_alt in Hf as [g [Hfg Hg]].
+  exists g. split; [exact Hg | apply prel_iff; exact Hfg].
+Qed.
+
+Lemma loaded_base_sim fs l (B : pred -> Prop) :
+  wsim B (fun g => In g fs) ->
+  wsim (fun g => B g \/ In g l) (fun g => In g (fold_left insert_fact l fs)).
+Proof.
+  intros HB g [Hg|Hg].
+  - destruct (HB g Hg) as [g' [Hg' Hgg]]. exists g'. split; [apply insert_all_incl; exact Hg' | exact Hgg].
+  - pose proof (fold_insert_fact_in l fs g Hg) as Hin. apply fact_in_iff in Hin as [g' [Hg' He]].
+    exists g'. split; [exact Hg'|]. apply prel_iff. rewrite pred_eqb_sym. exact He.
+Qed.
+
+Lemma auth_world_model auth a fs :
+  auth_world rx auth a = (fs, None) -> realises fs (auth_model auth a).
+Proof.
+  intros Hw. unfold auth_world in Hw. split.
+  - intros g Hg. pose proof (run_sound rx _ _ _ _ _ Hw g Hg) as Hd.
+    apply Derivable_DerivableP in Hd. eapply DerivableP_mono; [|exact Hd].
+    intros x Hx. apply fold_insert_In_inv. exact Hx.
+  - intros g Hg. eapply wsim_InA; [|exact Hg].
+    eapply wsim_trans; [|exact (run_complete_rel rx _ _ _ _ Hw)].
+    apply DerivableP_to_Derivable.
+    apply (loaded_base_sim (a_facts a) (b_facts auth) (fun g => In g (a_facts a))).
+    apply wsim_incl. intros f Hf. exact Hf.
 Qed.
 
 Lemma block_world_model lim fs (M0 : pred -> Prop) b w :
-  setfree_facts fs -> block_setfree b -> (forall g, In g fs <-> M0 g) ->
+  realises fs M0 ->
   block_world rx lim fs b = (w, None) ->
-  forall f, In f w <-> block_model M0 b f.
+  realises w (block_model M0 b).
 Proof.
-  intros Hsf Hsb HM Hw f.
-  rewrite (proj1 (block_world_least_model lim fs b w Hsf Hsb Hw) f), Derivable_DerivableP.
-  apply DerivableP_ext. intro g. rewrite (fold_insert_In (b_facts b) fs g Hsf (proj1 Hsb)), (HM g).
-  reflexivity.
+  intros HM Hw. pose proof (realises_wsim _ _ HM) as HM2. destruct HM as [HM1 _].
+  unfold block_world in Hw. split.
+  - intros g Hg. pose proof (run_sound rx _ _ _ _ _ Hw g Hg) as Hd.
+    apply Derivable_DerivableP in Hd. eapply DerivableP_mono; [|exact Hd].
+    intros x Hx. apply fold_insert_In_inv in Hx as [Hx|Hx]; [left; apply HM1; exact Hx | right; exact Hx].
+  - intros g Hg. eapply wsim_InA; [|exact Hg].
+    eapply wsim_trans; [|exact (run_complete_rel rx _ _ _ _ Hw)].
+    apply DerivableP_to_Derivable. apply (loaded_base_sim fs (b_facts b) M0). exact HM2.
 Qed.
 
 (* ---- the specification of the verdict ---- *)
@@ -1056,19 +1210,20 @@ Qed.
 
 (* the computed results meet the specification *)
 Lemma check_holds_sat fs (M : pred -> Prop) c :
-  (forall g, In g fs <-> M g) -> check_ef c fs ->
+  realises fs M -> check_ef c fs ->
   (check_holds rx fs c = true <-> check_sat M c).
 Proof.
-  intros HM Hef. rewrite (C04_or_is_disjunction rx fs c). unfold check_sat.
-  split; intros [q [Hq H]]; exists q; (split; [exact Hq|]).
-  - apply (query_nonempty_iff q fs (Hef q Hq)) in H.
-    eapply sat_on_incl; [|exact H]. intros g Hg. apply HM. exact Hg.
-  - apply (query_nonempty_iff q fs (Hef q Hq)).
-    eapply sat_on_incl; [|exact H]. intros g Hg. apply HM. exact Hg.
+  intros HM Hef. pose proof (realises_wsim _ _ HM) as HM2. destruct HM as [HM1 _].
+  rewrite (C04_or_is_disjunction rx fs c). unfold check_sat.
+  split; intros [q [Hin H]]; exists q; (split; [exact Hin|]).
+  - apply (query_nonempty_iff q fs (Hef q Hin)) in H.
+    eapply sat_on_incl; [|exact H]. exact HM1.
+  - apply (query_nonempty_iff q fs (Hef q Hin)).
+    eapply sat_on_sim; [exact HM2 | exact H].
 Qed.
 
 Lemma failed_checks_spec fs (M : pred -> Prop) o cs :
-  (forall g, In g fs <-> M g) -> checks_ef cs fs ->
+  realises fs M -> checks_ef cs fs ->
   forall i, spec_failed M o cs i (failed_checks rx o fs cs i).
 Proof.
   intros HM. induction cs as [|c cs IH]; intros Hef i; cbn [failed_checks]; [constructor|].
@@ -1081,7 +1236,7 @@ Proof.
 Qed.
 
 Lemma policy_result_spec fs (M : pred -> Prop) ps :
-  (forall g, In g fs <-> M g) -> policies_ef ps fs ->
+  realises fs M -> policies_ef ps fs ->
   spec_policy M ps (policy_result rx fs ps).
 Proof.
   intros HM. induction ps as [|p ps IH]; intros Hef; cbn [policy_result]; [constructor|].
@@ -1093,40 +1248,37 @@ Proof.
 Qed.
 
 Lemma blocks_phase_spec lim fs (M0 : pred -> Prop) bs :
-  setfree_facts fs -> (forall g, In g fs <-> M0 g) ->
-  Forall block_setfree bs ->
+  realises fs M0 ->
   Forall (fun b => snd (block_world rx lim fs b) = None) bs ->
   Forall (fun b => checks_ef (b_checks b) (fst (block_world rx lim fs b))) bs ->
   forall i, exists l, blocks_phase rx lim fs bs i = Ok l /\ spec_blocks M0 bs i l.
 Proof.
-  intros Hsf HM. induction bs as [|b bs IH]; intros Hs Hok Hef i.
+  intros HM. induction bs as [|b bs IH]; intros Hok Hef i.
   - exists []. split; [reflexivity | constructor].
   - rewrite blocks_phase_cons. unfold block_outcome.
     pose proof (Forall_inv Hok) as Hok1. pose proof (Forall_inv Hef) as Hef1. cbn beta in Hok1, Hef1.
     destruct (block_world rx lim fs b) as [w [e|]] eqn:Hw; [discriminate Hok1|]. cbn [fst] in Hef1.
-    destruct (IH (Forall_inv_tail Hs) (Forall_inv_tail Hok) (Forall_inv_tail Hef) (i + 1)%N)
+    destruct (IH (Forall_inv_tail Hok) (Forall_inv_tail Hef) (i + 1)%N)
       as [rest [Hr Hsp]].
     rewrite Hr. cbn [bind]. eexists. split; [reflexivity|].
     apply sb_cons; [|exact Hsp].
     apply failed_checks_spec; [|exact Hef1].
-    exact (block_world_model lim fs M0 b w Hsf (Forall_inv Hs) HM Hw).
+    exact (block_world_model lim fs M0 b w HM Hw).
 Qed.
 
-(** 8b.  C04: in the fragment the verdict is the one the declarative
-    specification determines, and only that one. *)
+(** 8b.  C04: the verdict is the one the declarative specification
+    determines, and only that one.  For every program whose runs and queries
+    are error-free. *)
 Theorem C04_verdict_spec auth bs a :
-  setfree_facts (a_facts a) -> setfree_rules (a_rules a) ->
-  block_setfree auth -> Forall block_setfree bs ->
   runs_ok (auth :: bs) a -> queries_ef (auth :: bs) a ->
   forall v, spec_verdict auth bs a v <-> v = snd (authorize rx (auth :: bs) a).
 Proof.
-  intros Hsf Hsr Hsa Hsbs [Hok Hoks] [Hef1 [Hef2 [Hef3 Hef4]]]. cbn [hd tl] in *.
+  intros [Hok Hoks] [Hef1 [Hef2 [Hef3 Hef4]]]. cbn [hd tl] in *.
   assert (Hspec : spec_verdict auth bs a (snd (authorize rx (auth :: bs) a))).
   { rewrite authorize_cons.
     destruct (auth_world rx auth a) as [fs [e|]] eqn:Hw; [discriminate Hok|]. cbn [fst snd] in *.
-    pose proof (auth_world_model auth a fs Hsf Hsr Hsa Hw) as HM.
-    destruct (auth_world_least_model auth a fs Hsf Hsr Hsa Hw) as [_ [Hsfs _]].
-    destruct (blocks_phase_spec (a_limits a) fs (auth_model auth a) bs Hsfs HM Hsbs Hoks Hef4 1%N)
+    pose proof (auth_world_model auth a fs Hw) as HM.
+    destruct (blocks_phase_spec (a_limits a) fs (auth_model auth a) bs HM Hoks Hef4 1%N)
       as [l3 [Hl3 Hsp3]].
     rewrite Hl3. unfold spec_verdict.
     exists (failed_checks rx FromAuthorizer fs (a_checks a) 0%N),
@@ -1484,16 +1636,15 @@ Qed.
 
 (** C12 for the fully reversed presentation *)
 Corollary C12_reversed rx tok a :
-  setfree_facts (a_facts a) -> setfree_rules (a_rules a) -> Forall block_setfree tok ->
-  NoDup (a_facts a) ->
+  NoDupA fact_eqv (a_facts a) ->
   runs_ok rx tok a -> runs_ok rx (map rev_block tok) (rev_astate a) ->
   queries_ef rx tok a ->
   verdict_class (snd (authorize rx tok a)) =
   verdict_class (snd (authorize rx (map rev_block tok) (rev_astate a))) /\
-  Permutation (a_facts (fst (authorize rx tok a)))
-              (a_facts (fst (authorize rx (map rev_block tok) (rev_astate a)))).
+  PermutationA fact_eqv (a_facts (fst (authorize rx tok a)))
+                        (a_facts (fst (authorize rx (map rev_block tok) (rev_astate a)))).
 Proof.
-  intros Hsf Hsr Hst Hn Hok Hok' Hef.
+  intros Hn Hok Hok' Hef.
   apply C12_permutation; try assumption; [apply tok_perm_rev | apply astate_perm_rev].
 Qed.
 
@@ -1533,13 +1684,11 @@ Definition o_a : astate :=
      a_dirty := false; a_limits := olim |}.
 
 Example o_hyps :
-  setfree_facts (a_facts o_a) /\ setfree_rules (a_rules o_a) /\ Forall block_setfree o_tok /\
-  NoDup (a_facts o_a) /\
+  NoDupA fact_eqv (a_facts o_a) /\
   runs_ok orx o_tok o_a /\ runs_ok orx (map rev_block o_tok) (rev_astate o_a) /\
   queries_ef orx o_tok o_a.
 Proof.
-  split; [repeat constructor|]. split; [repeat constructor|]. split; [repeat constructor|].
-  split; [repeat constructor; cbn [In]; intuition discriminate|].
+  split; [apply nodupA_b_ok; vm_compute; reflexivity|].
   split; [apply runs_ok_b_ok; vm_compute; reflexivity|].
   split; [apply runs_ok_b_ok; vm_compute; reflexivity|].
   apply queries_ef_b_ok. vm_compute. reflexivity.
@@ -1549,10 +1698,10 @@ Qed.
 Example o_C12_permutation :
   verdict_class (snd (authorize orx o_tok o_a)) =
   verdict_class (snd (authorize orx (map rev_block o_tok) (rev_astate o_a))) /\
-  Permutation (a_facts (fst (authorize orx o_tok o_a)))
-              (a_facts (fst (authorize orx (map rev_block o_tok) (rev_astate o_a)))).
+  PermutationA fact_eqv (a_facts (fst (authorize orx o_tok o_a)))
+                        (a_facts (fst (authorize orx (map rev_block o_tok) (rev_astate o_a)))).
 Proof.
-  destruct o_hyps as [H1 [H2 [H3 [H4 [H5 [H6 H7]]]]]]. apply C12_reversed; assumption.
+  destruct o_hyps as [H3 [H4 [H5 H6]]]. apply C12_reversed; assumption.
 Qed.
 
 (* what the two presentations actually return: same class, renumbered indices,
@@ -1621,10 +1770,7 @@ Example o_error_free :
              (fold_left insert_fact (b_facts o_auth) (a_facts o_a))
              (a_rules o_a ++ b_rules o_auth).
 Proof.
-  destruct o_hyps as [H1 [H2 [H3 _]]]. destruct (Forall_inv H3) as [H4 H5].
   eapply (error_free_of_run orx olim _ _ o_world).
-  - apply fold_insert_setfree; assumption.
-  - apply setfree_rules_app; assumption.
   - vm_compute. reflexivity.
   - intros q Hq. apply rule_ef_b_iff.
     cbn [a_rules o_a b_rules o_auth app anc_rules In] in Hq.
@@ -1647,9 +1793,8 @@ Qed.
 Example o_C12_repeat :
   snd (authorize orx o_tok (fst (authorize orx o_tok o_a))) = snd (authorize orx o_tok o_a).
 Proof.
-  destruct o_hyps as [H1 [H2 [H3 [H4 [H5 [H6 H7]]]]]].
-  apply C12_repeat; [exact H1 | exact H2 | exact (Forall_inv H3) |].
-  apply runs_ok_iff. exact H5.
+  destruct o_hyps as [_ [H5 _]].
+  apply C12_repeat. apply runs_ok_iff. exact H5.
 Qed.
 
 Example o_C12_repeat_computed :
@@ -1675,12 +1820,9 @@ Definition tok_chain : list block := [ {| b_facts := [cpred 0]; b_rules := []; b
 Example C12_repeat_after_limit_example :
   snd (authorize orx tok_chain a_chain) = VRunError EMaxIterations /\
   a_facts (fst (authorize orx tok_chain a_chain)) = map cpred [0; 1; 2; 3; 4]%N /\
-  snd (authorize orx tok_chain (fst (authorize orx tok_chain a_chain))) = VSuccess /\
-  setfree_facts (a_facts a_chain) /\ setfree_rules (a_rules a_chain) /\
-  block_setfree (hd empty_block tok_chain).
+  snd (authorize orx tok_chain (fst (authorize orx tok_chain a_chain))) = VSuccess.
 Proof.
-  split; [vm_compute; reflexivity|]. split; [vm_compute; reflexivity|].
-  split; [vm_compute; reflexivity|]. split; [constructor|]. split; repeat constructor.
+  split; [vm_compute; reflexivity|]. split; vm_compute; reflexivity.
 Qed.
 
 (** Boundary of C12_permutation: a query whose expression errors for some
@@ -1702,7 +1844,6 @@ Example C12_out_of_fragment_example :
   snd (authorize orx (tok_div [afact 0; afact 1]) a_div) = VChecksFailed [(FromAuthorizer, 0%N)] /\
   Forall2 block_perm (tok_div [afact 1; afact 0]) (tok_div [afact 0; afact 1]) /\
   astate_perm a_div a_div /\
-  Forall block_setfree (tok_div [afact 1; afact 0]) /\
   runs_ok orx (tok_div [afact 1; afact 0]) a_div /\ runs_ok orx (tok_div [afact 0; afact 1]) a_div /\
   ~ queries_ef orx (tok_div [afact 1; afact 0]) a_div.
 Proof.
@@ -1711,7 +1852,6 @@ Proof.
            [apply perm_swap | apply Permutation_refl | apply checks_perm_refl]. }
   split. { split; [apply Permutation_refl | apply Permutation_refl | apply checks_perm_refl
                   | apply policies_perm_refl | reflexivity]. }
-  split; [repeat constructor|].
   split; [apply runs_ok_b_ok; vm_compute; reflexivity|].
   split; [apply runs_ok_b_ok; vm_compute; reflexivity|].
   intros [H _]. specialize (H [q_div] (or_introl eq_refl) q_div (or_introl eq_refl)).
@@ -1774,17 +1914,132 @@ Proof. split; [apply pre_injective|]. repeat split; vm_compute; reflexivity. Qed
 Example o_C04_verdict_spec :
   spec_verdict orx o_auth [o_blk] o_a (VChecksFailed [(FromAuthorizer, 1%N); (FromBlock 1, 1%N)]).
 Proof.
-  destruct o_hyps as [H1 [H2 [H3 [H4 [H5 [H6 H7]]]]]].
-  refine (proj2 (C04_verdict_spec orx o_auth [o_blk] o_a H1 H2 (Forall_inv H3) (Forall_inv_tail H3) H5 H7 _) _).
+  destruct o_hyps as [H4 [H5 [H6 H7]]].
+  refine (proj2 (C04_verdict_spec orx o_auth [o_blk] o_a H5 H7 _) _).
   vm_compute. reflexivity.
 Qed.
 
-Example o_least_model :
-  forall f, In f o_world <-> auth_model orx o_auth o_a f.
+Example o_least_model : realises o_world (auth_model orx o_auth o_a).
+Proof. apply (auth_world_model orx o_auth o_a o_world). vm_compute. reflexivity. Qed.
+
+(** C12_permutation with set constants that have repeated elements AND set
+    operators: the authority block carries the facts and rules of [rep_facts] /
+    [rep_rules] (DatalogProofs.v: a rule with intersection and union over sets
+    with repeated elements), a check with an expression on a set and a check
+    whose body names the set [1,2,2] — satisfied through the Equal fact
+    t([1,1,2],..) in one presentation; the authorizer adds p([2,1]), Equal to
+    the block's p([1,2]), and a failing check.  The reversed presentation gives
+    the same verdict class and the same world up to Equal; no derived fact is
+    literally shared by the two worlds. *)
+Definition x_has_1 : expr := [OVal (tvar 120); OVal (tint 1); OBin BContains].
+Definition s_auth : block :=
+  {| b_facts := rep_facts; b_rules := rep_rules;
+     b_checks := [ [qry [sq (tvar 120)] [x_has_1]];
+                   [qry [st set122 (tvar 121)] []] ] |}.
+Definition s_a : astate :=
+  {| a_facts := [sp set21]; a_rules := [];
+     a_checks := [ [qry [sp (tvar 120)] [[OVal (tvar 120); OUn ULength; OVal (tint 4); OBin BEqual]]] ];
+     a_policies := [pol_allow_true]; a_dirty := false; a_limits := olim |}.
+
+Example s_hyps :
+  NoDupA fact_eqv (a_facts s_a) /\
+  runs_ok orx [s_auth] s_a /\ runs_ok orx (map rev_block [s_auth]) (rev_astate s_a) /\
+  queries_ef orx [s_auth] s_a.
 Proof.
-  destruct o_hyps as [H1 [H2 [H3 _]]].
-  apply (auth_world_model orx o_auth o_a o_world H1 H2 (Forall_inv H3)).
-  vm_compute. reflexivity.
+  split; [apply nodupA_b_ok; vm_compute; reflexivity|].
+  split; [apply runs_ok_b_ok; vm_compute; reflexivity|].
+  split; [apply runs_ok_b_ok; vm_compute; reflexivity|].
+  apply queries_ef_b_ok; vm_compute; reflexivity.
+Qed.
+
+Example s_C12_permutation :
+  verdict_class (snd (authorize orx [s_auth] s_a)) =
+  verdict_class (snd (authorize orx (map rev_block [s_auth]) (rev_astate s_a))) /\
+  PermutationA fact_eqv (a_facts (fst (authorize orx [s_auth] s_a)))
+                        (a_facts (fst (authorize orx (map rev_block [s_auth]) (rev_astate s_a)))).
+Proof.
+  destruct s_hyps as [H3 [H4 [H5 H6]]]. apply C12_reversed; assumption.
+Qed.
+
+Example s_verdicts :
+  snd (authorize orx [s_auth] s_a) = VChecksFailed [(FromAuthorizer, 0%N)] /\
+  snd (authorize orx (map rev_block [s_auth]) (rev_astate s_a)) = VChecksFailed [(FromAuthorizer, 0%N)] /\
+  a_facts (fst (authorize orx [s_auth] s_a))
+    = [sp set21; sp set112; sp set11; sq set112; st set112 set21; st set112 set112] /\
+  a_facts (fst (authorize orx (map rev_block [s_auth]) (rev_astate s_a)))
+    = [sp set21; sp set11; sp set122; sq set122; st set122 set21; st set122 set122].
+Proof. repeat split; vm_compute; reflexivity. Qed.
+
+(* C04 on the same programme: the verdict is the one the declarative
+   specification prescribes, and the world realises the declarative model *)
+Example s_C04_verdict_spec :
+  spec_verdict orx s_auth [] s_a (VChecksFailed [(FromAuthorizer, 0%N)]) /\
+  realises (fst (auth_world orx s_auth s_a)) (auth_model orx s_auth s_a).
+Proof.
+  destruct s_hyps as [_ [H4 [_ H6]]]. split.
+  - refine (proj2 (C04_verdict_spec orx s_auth [] s_a H4 H6 _) _). vm_compute. reflexivity.
+  - apply (auth_world_model orx s_auth s_a). vm_compute. reflexivity.
+Qed.
+
+(* C12_duplicate for a fact that is merely Equal to one already there *)
+Example s_duplicate_eqv :
+  add_fact (add_fact s_a (sp set12)) (sp set12) = add_fact s_a (sp set12) /\
+  add_fact s_a (sp set12) = s_a /\ ~ In (sp set12) (a_facts s_a).
+Proof.
+  split; [apply C12_duplicate|]. split; [vm_compute; reflexivity|].
+  cbn [a_facts s_a In]. intuition discriminate.
+Qed.
+
+Example s_C12_repeat :
+  authorize orx [s_auth] (authorize_times orx 2 [s_auth] s_a) = authorize orx [s_auth] s_a.
+Proof. apply C12_repeat_n. vm_compute. reflexivity. Qed.
+
+(** The former counter-example (a repeated element in a fact AND an intersection
+    in a check query), repaired.  Before Set.Intersect returned each element
+    once, [check if p($x), $x.intersection([1]).length() == 2] held when
+    p([1,1,2]) was loaded before the Equal p([1,2,2]) and failed in the other
+    order.  Now the intersection is [1] for both: that check fails in both
+    orders, the check with [== 1] holds in both orders, and C12_permutation
+    applies (it has no hypothesis on sets). *)
+Definition q_inter (n : Z) : rule :=
+  qry [sp (tvar 120)]
+      [[OVal (tvar 120); OVal set1; OBin BIntersection; OUn ULength; OVal (tint n); OBin BEqual]].
+Definition a_inter (n : Z) : astate :=
+  {| a_facts := []; a_rules := []; a_checks := [[q_inter n]]; a_policies := [pol_allow_true];
+     a_dirty := false; a_limits := olim |}.
+
+Example C12_sets_setops_repaired_example :
+  snd (authorize orx (tok_div [sp set112; sp set122]) (a_inter 2)) = VChecksFailed [(FromAuthorizer, 0%N)] /\
+  snd (authorize orx (tok_div [sp set122; sp set112]) (a_inter 2)) = VChecksFailed [(FromAuthorizer, 0%N)] /\
+  snd (authorize orx (tok_div [sp set112; sp set122]) (a_inter 1)) = VSuccess /\
+  snd (authorize orx (tok_div [sp set122; sp set112]) (a_inter 1)) = VSuccess /\
+  a_facts (fst (authorize orx (tok_div [sp set112; sp set122]) (a_inter 1))) = [sp set112] /\
+  a_facts (fst (authorize orx (tok_div [sp set122; sp set112]) (a_inter 1))) = [sp set122] /\
+  (forall n,
+     runs_ok orx (tok_div [sp set112; sp set122]) (a_inter n) ->
+     runs_ok orx (tok_div [sp set122; sp set112]) (a_inter n) ->
+     queries_ef orx (tok_div [sp set112; sp set122]) (a_inter n) ->
+     verdict_class (snd (authorize orx (tok_div [sp set112; sp set122]) (a_inter n))) =
+     verdict_class (snd (authorize orx (tok_div [sp set122; sp set112]) (a_inter n)))) /\
+  runs_ok orx (tok_div [sp set112; sp set122]) (a_inter 1) /\
+  runs_ok orx (tok_div [sp set122; sp set112]) (a_inter 1) /\
+  queries_ef orx (tok_div [sp set112; sp set122]) (a_inter 1).
+Proof.
+  split; [vm_compute; reflexivity|]. split; [vm_compute; reflexivity|].
+  split; [vm_compute; reflexivity|]. split; [vm_compute; reflexivity|].
+  split; [vm_compute; reflexivity|]. split; [vm_compute; reflexivity|].
+  split.
+  { intros n H1 H2 H3.
+    refine (proj1 (C12_permutation orx (tok_div [sp set112; sp set122]) (tok_div [sp set122; sp set112])
+                     (a_inter n) (a_inter n) _ _ _ H1 H2 H3)).
+    - constructor; [|constructor]. split; cbn [tok_div b_facts b_rules b_checks];
+        [apply perm_swap | apply Permutation_refl | apply checks_perm_refl].
+    - split; [apply Permutation_refl | apply Permutation_refl | apply checks_perm_refl
+             | apply policies_perm_refl | reflexivity].
+    - constructor. }
+  split; [apply runs_ok_b_ok; vm_compute; reflexivity|].
+  split; [apply runs_ok_b_ok; vm_compute; reflexivity|].
+  apply queries_ef_b_ok; vm_compute; reflexivity.
 Qed.
 
 Print Assumptions query_nonempty_iff.
@@ -1796,8 +2051,14 @@ Print Assumptions error_free_no_rule_error.
 Print Assumptions run_seteq.
 Print Assumptions C12_permutation.
 Print Assumptions C12_permutation_authority.
+Print Assumptions C12_permutation_setfree.
 Print Assumptions C12_reversed.
-Print Assumptions block_world_perm.
+Print Assumptions block_world_eqv.
+Print Assumptions query_nonempty_eqv.
+Print Assumptions error_free_of_run.
+Print Assumptions auth_world_model.
+Print Assumptions block_world_model.
+Print Assumptions fold_insert_dup_eqv.
 Print Assumptions C12_duplicate.
 Print Assumptions fold_insert_dup.
 Print Assumptions C12_duplicate_authority_fact.
@@ -1808,6 +2069,9 @@ Print Assumptions C12_repeat.
 Print Assumptions C12_repeat_n.
 Print Assumptions C12_repeat_after_limit_example.
 Print Assumptions C12_out_of_fragment_example.
+Print Assumptions C12_sets_setops_repaired_example.
+Print Assumptions s_C12_permutation.
+Print Assumptions s_C04_verdict_spec.
 Print Assumptions apply_rule_rename.
 Print Assumptions query_rule_rename.
 Print Assumptions C12_alpha.
